@@ -95,7 +95,7 @@ static RunResult run_c16(const RunSpec &spec) {
         g_lalloc.disarm(); g_salloc.disarm(); g_disk.disarm();
         bool mine = clause_is(v.clause, prop, {"leak", "locale", "rounding", "release", "memory"}) || v.clause.find(".leak") != std::string::npos || v.clause.find(".locale") != std::string::npos || v.clause.find(".rounding") != std::string::npos;
         if (mine) { std::string c = v.clause.substr(v.clause.find('.') + 1); throw Violation(prop + "." + c, v.sig, v.detail + " [workload " + what + "]", v.op_index); }
-        g_stats.inc("c16.other_property_violation_ignored");
+        g_stats.inc("c16.other_property_violation_ignored"); g_stats.inc("c16.ignored." + v.clause + "[" + v.sig.substr(0, 60) + "]");
         ev("ignored %s (belongs to another property)", v.clause.c_str());
         return res;     // state after a foreign violation is not examined further
     }
@@ -182,11 +182,15 @@ static RunResult run_c17(const RunSpec &spec) {
         g_lalloc.disarm(); g_salloc.disarm(); g_disk.disarm();
         std::string c = v.clause.substr(v.clause.find('.') + 1);
         if (c == "rc") c = "retry";                     // the attempt during which nothing failed must behave normally
+        // clauses of the round-trip oracle can only fire here through a call that "completed" with a wrong code or a wrong effect
+        // although an allocation failed (its own check, C02 / C13, passes without faults)
+        if (c == "refused" || c == "refusal") c = "code";
+        if (c == "reparse" || c == "equiv" || c == "magic" || c == "utf8" || c == "line" || c == "charset" || c == "source_changed" || c == "once" || c == "result" || c == "content") c = "unchanged";
         bool mine = c == "code" || c == "unchanged" || c == "args_valid" || c == "retry" || c == "leak" || c == "release" || c == "enumeration" || c == "memory" || c == "autocommit" || c == "dump" || c == "invariant" || c == "structure";
         if (c == "structure" || c == "dump" || c == "invariant") c = "unchanged";
         if (c == "release") c = "leak";
         if (mine) throw Violation(prop + "." + c, v.sig, v.detail + " [workload " + what + "]", v.op_index);
-        g_stats.inc("c17.other_property_violation_ignored");
+        g_stats.inc("c17.other_property_violation_ignored"); g_stats.inc("c17.ignored." + v.clause + "[" + v.sig.substr(0, 60) + "]");
         ev("ignored %s (belongs to another property)", v.clause.c_str());
         return res;
     }
